@@ -382,9 +382,9 @@ impl AsmLine {
             Label::Ref(val) => val,
             Label::Unfilled(_) => panic!("Tried to offset unfilled label"),
         };
-        // Use a wider type, so that the distance cannot wrap around 16 bits, and neither `- 1` nor
-        // `abs` can overflow
-        let offset = *label_pos as i32 - self.line as i32 - 1;
+        let (offset, _) = label_pos.overflowing_sub(self.line);
+        // Use a wider type, so that neither `- 1` nor `abs` can overflow
+        let offset = (offset as i16) as i32 - 1;
         // Must fit in specified offset bits
         if offset.abs() > 2i32.pow(bits - 1) - if offset > 0 { 1 } else { 0 } {
             bail!(
